@@ -8,8 +8,8 @@
    [_current] variant.  Where they differ the difference is a recorded finding (F8, F9, F10), shown here
    by a [_refuted] witness and characterised exactly. *)
 From Coq Require Import NArith List.
-From BU Require Import Base.Exn Base.Bytes Model.MnemWords Model.MnemText Model.ChunkMnemonic
-  Model.MoneroMnemonic.
+From BU Require Import Base.Exn Base.Radix Base.Bytes Model.MnemWords Model.MnemText Model.ChunkMnemonic
+  Model.MoneroMnemonic Model.AlgorandMnemonic.
 From BU Require Import Gen.MnemConsts Gen.MnemLangs Gen.WlMnem_Ev1 Gen.WlMnem_Xmr_english.
 From BU Require Lemmas.MnemC17 Lemmas.MnemWitness Lemmas.MnemText Lemmas.MoneroMnemonic.
 Import ListNotations.
@@ -198,3 +198,70 @@ Theorem monero_canonical_refuted :
     xmr_decode (Some 2%nat) ws = Err ValueError.
 Proof. exact Lemmas.MnemWitness.monero_17_bytes_witness. Qed.
 Print Assumptions monero_canonical_refuted.
+
+(* ================================================================ Algorand =================== *)
+(* SHA-512/256 is an oracle: any function [sha] with 32-byte outputs.  The decoder's default language
+   (English, the only Algorand language) is modelled. *)
+
+Definition algo_encode sha := AlgorandMnemonic.encode algo_wl algo_cklen algo_entropy_bit_lens algo_word_bits sha.
+(* [algo_decode sha true]: property-conformant (the 33rd regrouped byte must be zero);
+   [algo_decode sha false]: the code as it stands (F9) *)
+Definition algo_decode sha := AlgorandMnemonic.decode algo_wl algo_word_nums algo_cklen algo_word_bits sha.
+Definition algo_checksum_idx sha := AlgorandMnemonic.checksum_idx algo_cklen algo_word_bits sha.
+Definition sha_law (sha : list N -> list N) : Prop :=
+  (forall x, length (sha x) = 32%nat) /\ (forall x, bytes_ok (sha x)).
+
+Theorem algorand_dec_enc : forall sha conformant b, sha_law sha -> bytes_ok b -> length b = 32%nat ->
+  exists ws, algo_encode sha b = Ok ws /\ length ws = 25%nat /\ Forall (fun w => In w algo_wl) ws /\
+             algo_decode sha conformant ws = Ok b.
+Proof. intros sha conformant b [H1 H2]. exact (Lemmas.MnemC17.algo_dec_enc sha H1 H2 conformant b). Qed.
+Print Assumptions algorand_dec_enc.
+
+Example algorand_premises : sha_law (fun _ => repeat 7 32) /\ bytes_ok (repeat 255 32) /\ length (repeat 255 32) = 32%nat.
+Proof.
+  split; [split; intros; [reflexivity|apply bytes_okb_spec; reflexivity]|].
+  split; [apply bytes_okb_spec; reflexivity|reflexivity].
+Qed.
+Print Assumptions algorand_premises.
+
+(* a phrase is accepted iff it has 25 list words and its 25th word is the checksum word of the entropy carried by
+   the first 24 (their 11-bit little-endian value, low 256 bits) -- and, for the conformant decoder, the bits above
+   bit 255 are zero, i.e. the 24th word's index is below 8 *)
+Theorem algorand_accepts_iff : forall sha conformant ws, sha_law sha ->
+  ((exists b, algo_decode sha conformant ws = Ok b) <->
+   (length ws = 25%nat /\ Forall (fun w => In w algo_wl) ws /\
+    exists idx, mapM (word_idx algo_wl) ws = Ok idx /\
+      (conformant = true -> nth 23 idx 0 < 8) /\
+      exists b, int_to_le_fixed 32 (from_le 2048 (removelast idx) mod 2 ^ 256) = Ok b /\
+                algo_checksum_idx sha b = Ok (last idx 0))).
+Proof. intros sha conformant ws [H1 H2]. exact (Lemmas.MnemC17.algo_accepts_iff sha H1 H2 conformant ws). Qed.
+Print Assumptions algorand_accepts_iff.
+
+Theorem algorand_decode_errors : forall sha conformant ws e, sha_law sha ->
+  algo_decode sha conformant ws = Err e -> e = ValueError \/ e = LibError MnemonicChecksumError.
+Proof. intros sha conformant ws e [H1 H2]. exact (Lemmas.MnemC17.algo_decode_err_family sha H1 H2 conformant ws e). Qed.
+Print Assumptions algorand_decode_errors.
+
+Theorem algorand_accepted_is_canonical : forall sha ws b, sha_law sha ->
+  algo_decode sha true ws = Ok b -> bytes_ok b /\ length b = 32%nat /\ algo_encode sha b = Ok ws.
+Proof. intros sha ws b [H1 H2]. exact (Lemmas.MnemC17.algo_accepted_is_canonical sha H1 H2 ws b). Qed.
+Print Assumptions algorand_accepted_is_canonical.
+
+(* F9.  Full-strength statement, FALSE of the code as it stands:
+     algo_decode sha false ws = Ok b -> algo_encode sha b = Ok ws.
+   For EVERY entropy and every k in 1..255, replacing the 24th word (index i < 8) of the encoding by the word
+   of index i + 8k gives a different phrase that the code decodes to the same entropy. *)
+Theorem algorand_f9_family : forall sha b k, sha_law sha -> bytes_ok b -> length b = 32%nat -> 0 < k < 256 ->
+  exists pre w23 wc i23 w23',
+    algo_encode sha b = Ok (pre ++ [w23; wc]) /\ length pre = 23%nat /\
+    word_idx algo_wl w23 = Ok i23 /\ i23 < 8 /\ word_at algo_wl (i23 + 8 * k) = Ok w23' /\ w23' <> w23 /\
+    algo_decode sha false (pre ++ [w23'; wc]) = Ok b /\
+    algo_decode sha true (pre ++ [w23'; wc]) = Err ValueError.
+Proof. intros sha b k [H1 H2]. exact (Lemmas.MnemC17.algo_f9_family sha H1 H2 b k). Qed.
+Print Assumptions algorand_f9_family.
+
+Theorem algorand_canonical_refuted : forall sha, sha_law sha ->
+  exists ws b, algo_decode sha false ws = Ok b /\ algo_encode sha b <> Ok ws /\
+               algo_decode sha true ws = Err ValueError.
+Proof. intros sha [H1 H2]. exact (Lemmas.MnemC17.algo_canonical_refuted sha H1 H2). Qed.
+Print Assumptions algorand_canonical_refuted.
